@@ -7,7 +7,7 @@ import CifModel.Props.ReviewRC14
   ordered) excludes it.
 -/
 namespace CifModel.ReviewSC14
-open CifModel Walk Lemmas.Walk Lemmas.WalkH Spec.TraversalPos ReviewRC14
+open CifModel Walk Lemmas.Walk Lemmas.WalkH Spec.Traversal Spec.TraversalPos ReviewRC14
 
 private def b1 := a!"b1"
 private def b2 := a!"b2"
@@ -37,7 +37,7 @@ def swapLog : List (Ev × Handle) :=
 
 -- the callbacks are those of a real walk (SKIP_CURRENT at both frame_start callbacks) …
 def skipFrames : Prog := fun k _ => if k = 2 ∨ k = 5 then SKIP_CURRENT else 0
-example : swapLog.map (·.1) = (walkH skipFrames cif3).1.map (·.1) := by decide +kernel
+example : swapLog.map (·.1) = (walkH skipFrames cif3).1.map (·.1) := by rfl
 -- … no (kind, position) occurs twice, so conjunct 4 alone would accept it …
 example : (swapLog.map (fun x => (kind x.1, x.2))).Nodup := by decide +kernel
 -- … every handle is a position of `cif3` announcing a frame with code `f` (content-wise right) …
